@@ -12,9 +12,9 @@
 (* SameSearch.  Search extraction per protocol is Links!Parse(..).search applied to         *)
 (* Links!Follow(p, t, base, s); Gemini's prompt -> query -> redirect dialogue is            *)
 (* SearchReaches.  Deviations of the pinned code are modelled and named:                    *)
-(*   DefaultPort70    http.py/gemini.py/spartan.py call geturl(server_name, 70) while       *)
-(*                    rfc1436.py uses server_port: an entry with a host but no port points  *)
-(*                    at different ports when the server's advertised port is not 70        *)
+(*   (DefaultPort70 - http.py/gemini.py/spartan.py rendered a host-but-no-port entry with   *)
+(*    port 70 where rfc1436.py uses the advertised port - was found by this model and is    *)
+(*    repaired in the code by fix e38974e; Links!Target follows the repaired code)          *)
 (*   FormDecodeReplace  http.py takes the search string from urllib.parse.parse_qs, which   *)
 (*                    decodes with errors="replace": a non-UTF-8 byte reaches the handler   *)
 (*                    as U+FFFD through HTTP/WAP, as the byte through every other protocol  *)
@@ -70,7 +70,6 @@ SameInfo(v1, v2, ae) == ae # "unsupported" => v1 = v2
 
 \* ---- the model side: the same entry rendered for p and for plain Gopher ----------------------
 CanonOfEntry(p, e) == Canon(p, Target(p, e))
-DefaultPort70(e) == e.type # "i" /\ ~IsUrlSel(e.sel) /\ e.host # "" /\ e.port = 0 /\ ServerPort # 70
 \* http.py (and wap.py) render a local entry with an EMPTY selector as the empty reference (= the current page);
 \* gemini.py/spartan.py substitute "/" and Gopher clients send the empty selector, both meaning the root menu
 EmptySelectorHref(p, e) == p \in {"H", "HS", "W"} /\ e.type # "i" /\ e.sel = "" /\ e.host = "" /\ e.port = 0
